@@ -177,6 +177,8 @@ def set_attr(world, cname, state, attr, v):
 def reset_attr(world, cname, state, attr):
     """Returns the set of acceptable states (one): the attribute holds what a newly constructed instance would hold - the
     default as the constructor installs it, i.e. prepared."""
+    if model_default(world, cname, attr) is ABSENT and attr not in state:
+        return [dict(state)]  # nothing held, nothing to restore: no change (and nothing to invalidate)
     outs = []
     for dv in (model_default(world, cname, attr),):
         s = dict(state)
